@@ -959,6 +959,13 @@ class Engine:
             vs = self.si.enums[segs[-2]]
             idx = vs.index(segs[-1])
             return Agg(segs[-2], {}, idx, {idx: vals}, vs, ty=dest_ty)
+        if len(segs) >= 2 and segs[-2] == 'Out' and '__tokio_select_util' in sp and re.match(r'^_\d+$', segs[-1]):
+            # tokio::select! output enum (macro-generated, not in the source scan): Out<_0, .., _n-1> = _0 | .. | _n-1 | Disabled
+            h, a = generic_args(path.rsplit('::', 1)[0].replace('::<', '<', 1) if '::<' in path else (dest_ty or ''))
+            n = len(a) if a else len(generic_args(dest_ty or '')[1])
+            vs = ['_%d' % i for i in range(n)] + ['Disabled']
+            idx = int(segs[-1][1:])
+            return Agg('::'.join(segs[:-1]), {}, idx, {idx: vals}, vs, ty=dest_ty)
         if not vals and len(segs) == 1 and not isinstance(ops, dict):
             # bare constant-like thing
             return self.const(st, path, dest_ty)
